@@ -1234,13 +1234,22 @@ impl<'a> Exchange<'a> {
         // counter value replayed. Writes happen once per
         // `GROUP_DATA_CTR_EPOCH` messages, not per message.
         if let Some(boundary) = boundary {
-            kv.access(|store, buf| {
+            let stored = kv.access(|store, buf| {
                 store.store(
                     crate::persist::GROUP_DATA_COUNTER_KEY,
                     &boundary.to_le_bytes(),
                     buf,
                 )
-            })?;
+            });
+
+            if let Err(err) = stored {
+                // Nothing durable covers the values past the old boundary:
+                // have the next reservation demand the write again, rather
+                // than sending them uncovered (a restart would replay them).
+                matter.with_state(|state| state.sessions.uncover_global_group_data_ctr());
+
+                return Err(err);
+            }
 
             debug!(
                 "Group data message counter boundary persisted: {}",
